@@ -61,7 +61,7 @@ func VH_RT_xz() {
 	// tiny inputs are always stored as raw LZMA2 chunks; a redundant tail makes the
 	// writer emit compressed chunks as well
 	split := vConcretize(int(vNondetU8("split")) % (n + 1))
-	if n <= 3 && vConcretize(int(vNondetU8("tail"))%2) == 1 {
+	if n <= 2 && vConcretize(int(vNondetU8("tail"))%2) == 1 {
 		data = append(data, "abababababababababababab"...)
 		if split == n && vConcretize(int(vNondetU8("splitInTail"))%2) == 1 {
 			split += 7
